@@ -18,7 +18,7 @@ func propC10() Property {
 		Explanation: "FieldMap keeps two views of one set (tagSort.tags drives write(); the tagLookup map drives length()/total()). " +
 			"R1 decides, for every function of the module that updates either view, that the other view is updated on the same paths (insert⇄append-if-absent, delete⇄removal, wholesale⇄wholesale). " +
 			"R2: a field copied from one lookup table into another keeps its full length. R3: the tags excluded from BodyLength/CheckSum accumulation are exactly {8,9,10}/{10} in writer and parser. " +
-			"R4: header/trailer ordering functions rank 8<9<35<rest and 10 last; builders cook then write Header, body, Trailer in that order. R5: cook binds BodyLength/CheckSum to the sums of the three sections. R6 (shared with C11): the header/trailer tag tables agree with the shipped specs, so what a builder writes into a section parses back into that section. R7: a setter that reuses an existing lookup entry cut to [:1] stores the cut entry back under the same key (an entry may be a whole repeating group; only the table's entry decides what is written). R8: the checksum/length helpers fold byte-typed elements of the slice (not runes of a string conversion); a setter that obtained an entry re-initialises it on every path before returning (no skip on \"unchanged value\" — the stored value may alias the caller's buffer).",
+			"R4: header/trailer ordering functions rank 8<9<35<rest and 10 last; builders cook then write Header, body, Trailer in that order. R5: cook binds BodyLength/CheckSum to the sums of the three sections. R6 (shared with C11): the header/trailer tag tables agree with the shipped specs, so what a builder writes into a section parses back into that section. R7: a setter that reuses an existing lookup entry cut to [:1] stores the cut entry back under the same key (an entry may be a whole repeating group; only the table's entry decides what is written). R8: the checksum/length helpers fold byte-typed elements of the slice (not runes of a string conversion); a setter that obtained an entry re-initialises it on every path before returning (no skip on \"unchanged value\" — the stored value may alias the caller's buffer). R9 (shared with C13): the group writer looks members up by the entry's own tag list (every field an entry holds is written), and a group setter stores the group on every path.",
 		NotDecided: "numeric correctness of the formatted BodyLength/CheckSum digits, ParseMessage round-trip equality, value escaping.",
 		Rules: []RuleDef{
 			{ID: "C10-R1", Desc: "tags ⇄ tagLookup paired update in every writer", Min: 6, Run: c10R1},
@@ -29,6 +29,7 @@ func propC10() Property {
 			{ID: "C10-R6", Desc: "header/trailer tag tables agree with the shipped specs (= C11-R1): what is built parses back into the same section", Min: 9, Run: c11R1},
 			{ID: "C10-R7", Desc: "re-initialising an existing entry truncates it in the table", Min: 1, Run: c10R7},
 			{ID: "C10-R8", Desc: "byte sums fold bytes; setters always re-initialise the entry", Min: 2, Run: c10R8},
+			{ID: "C10-R9", Desc: "the group writer writes every field an entry holds; a group is always stored (= C13-R11)", Min: 2, Run: c13R11},
 		},
 	}
 }
